@@ -13,6 +13,8 @@ mod inner {
     pub struct PubS;
     struct PrivS;
     pub mod deeper { pub(in super::super) trait InT {} }
+    pub trait Blanket {}
+    impl<T: ::core::marker::Sync + 'static> Blanket for T {}
 }
 trait SendFut { fn f(&self) -> impl ::core::future::Future<Output = ()> + ::core::marker::Send; }
 trait LocalFut { fn f(&self) -> impl ::core::future::Future<Output = ()>; }
@@ -30,6 +32,7 @@ pub fn run() {
     ::vrt::fact("vis_priv", ::vrt::visible_trait!(self::inner, PrivT));
     ::vrt::fact("vis_super", ::vrt::visible_trait!(self::inner, SuperT));
     ::vrt::fact("vis_in", ::vrt::visible_trait!(self::inner::deeper, InT));
+    ::vrt::fact("vis_blanket", ::vrt::visible_trait!(self::inner, Blanket));
     ::vrt::fact("vis_missing", ::vrt::visible_trait!(self::inner, Missing));
     ::vrt::fact("ty_pub", ::vrt::exists_type!(self::inner, PubS).contains("inner::PubS"));
     ::vrt::fact("ty_priv", ::vrt::exists_type!(self::inner, PrivS).contains("inner::PrivS"));
@@ -54,7 +57,7 @@ pub fn run() {
 
 EXPECT = {
     "yes_plain": "true", "no_plain": "false", "cell_sync": "false", "u8_sync": "true",
-    "vis_pub": "true", "vis_priv": "false", "vis_super": "true", "vis_in": "true", "vis_missing": "false",
+    "vis_pub": "true", "vis_priv": "false", "vis_super": "true", "vis_in": "true", "vis_missing": "false", "vis_blanket": "true",
     "ty_pub": "true", "ty_priv": "false", "send_declared": "true", "send_undeclared": "false",
     "alloc_counted": "1",
 }
